@@ -230,6 +230,8 @@ def run_uncached(repo, gen_dir, seed, rlimit, threads, verbose):
         elif fnr:
             f['file'] = fnr['file']; f['line'] = fnr['line']
         f['site_text'] = norm(span_text(site))[:200]
+        if cls == 'assert' and org[0] == 'inj' and org[1] not in ('proof', 'loop-body-start', 'loop-body-end', 'outline'):
+            f['label'] = org[1]
         if clause is not None:
             corg, _ = sm.origin(clause['byte_start'])
             f['clause_origin'] = list(corg)
